@@ -37,6 +37,7 @@ func checkC11(c *Check) {
 	c11NoCrash(c)
 	c11Staleness(c)
 	c11Eviction(c)
+	c11OutcomeMatchesCase(c)
 
 	// the endpoint's permits: C03.R5 / C03.immut (acquire/release pairing and key agreement in the SMTP session) are
 	// this property's rules for the endpoint scope; they are re-evaluated here.
@@ -1860,4 +1861,140 @@ func c11ConnTable(c *Check) {
 	})
 	// the table is created once, where the delivery is created (Start); that literal is not a site above
 	c.Hold("R2c", "remoteDelivery.connections:sites", token.NoPos, true, "")
+}
+
+
+// R9: a waiting acquisition is a select between "got the permit" (a send to / receive from the limiter's own channel)
+// and "gave up" (context done, timer). What the function reports must be decided by the case that fired: after the
+// acquire case only a constant success (or a sentinel for a closed limiter), after a give-up case never a success. A
+// result computed after the select from something else (`return ctx.Err()`) can disagree with the case taken: the
+// permit is held while the caller is told it got none, and nobody ever returns it.
+func c11OutcomeMatchesCase(c *Check) {
+	c.Rule("R9", "limiters: in a select between acquiring and giving up, the acquire case leads only to returns of the constant success (or of a package-level sentinel error), a give-up case never to a constant success – the reported outcome is the case that fired, not something re-read afterwards", 2)
+	p := c.P
+	pk := p.Pkg("internal/limits/limiters")
+	if pk == nil {
+		c.Fail("R9", "package", token.NoPos, "anchor unresolved")
+		return
+	}
+	info := pk.TypesInfo
+	n := 0
+	for _, fi := range funcsOfPkgs(p, "internal/limits/limiters") {
+		sig := fi.Obj.Type().(*types.Signature)
+		if sig.Recv() == nil || sig.Results().Len() != 1 {
+			continue
+		}
+		recvObj := types.Object(nil)
+		if fi.Decl.Recv != nil && len(fi.Decl.Recv.List) == 1 && len(fi.Decl.Recv.List[0].Names) == 1 {
+			recvObj = info.Defs[fi.Decl.Recv.List[0].Names[0]]
+		}
+		ownChan := func(e ast.Expr) bool {
+			sel, ok := ast.Unparen(e).(*ast.SelectorExpr)
+			return ok && fieldOf(info, sel) != nil && recvObj != nil && objOf(info, sel.X) == recvObj
+		}
+		var r *RuleCtx
+		inspectNoLit(fi.Decl.Body, func(x ast.Node) bool {
+			sel, ok := x.(*ast.SelectStmt)
+			if !ok {
+				return true
+			}
+			hasAcquire := false
+			type clause struct {
+				cc      *ast.CommClause
+				acquire bool
+			}
+			var cls []clause
+			for _, st := range sel.Body.List {
+				cc := st.(*ast.CommClause)
+				if cc.Comm == nil {
+					cls = append(cls, clause{cc, false})
+					continue
+				}
+				acq := false
+				switch cm := cc.Comm.(type) {
+				case *ast.SendStmt:
+					acq = ownChan(cm.Chan)
+				case *ast.ExprStmt:
+					if u, ok := ast.Unparen(cm.X).(*ast.UnaryExpr); ok && u.Op == token.ARROW {
+						acq = ownChan(u.X)
+					}
+				case *ast.AssignStmt:
+					if len(cm.Rhs) == 1 {
+						if u, ok := ast.Unparen(cm.Rhs[0]).(*ast.UnaryExpr); ok && u.Op == token.ARROW {
+							acq = ownChan(u.X)
+						}
+					}
+				}
+				if acq {
+					hasAcquire = true
+				}
+				cls = append(cls, clause{cc, acq})
+			}
+			if !hasAcquire || len(cls) < 2 {
+				return true
+			}
+			if r == nil {
+				r = c.CtxOf(fi)
+			}
+			c.SawFunc(fi.Name())
+			constSuccess := func(e ast.Expr) bool {
+				if isNilIdent(info, e) {
+					return true
+				}
+				tv, ok := info.Types[e]
+				return ok && tv.Value != nil && tv.Value.String() == "true"
+			}
+			sentinel := func(e ast.Expr) bool {
+				o := objOf(info, e)
+				v, ok := o.(*types.Var)
+				return ok && v.Pkg() != nil && v.Parent() == v.Pkg().Scope()
+			}
+			for i, cl := range cls {
+				n++
+				key := fi.Name() + ":case" + itoa(i+1)
+				// start: the first point of the clause (its comm statement, or its body)
+				var start []Pt
+				for _, b := range r.F.G.Blocks {
+					if b.Stmt == ast.Stmt(cl.cc) && b.Kind == kindSelectCaseBody {
+						start = append(start, Pt{b, 0})
+					}
+				}
+				if len(start) == 0 {
+					if cl.cc.Comm != nil {
+						if pt, ok := r.F.PtOfNode(cl.cc.Comm); ok {
+							start = append(start, pt)
+						}
+					}
+				}
+				if len(start) == 0 {
+					c.Fail("R9", key, cl.cc.Pos(), "undecided: select case not located in the control-flow graph")
+					continue
+				}
+				msg := ""
+				for _, b := range r.F.G.Blocks {
+					q := Pt{b, len(b.Nodes)}
+					_, ret := r.F.Exit(q)
+					if ret == nil || len(ret.Results) != 1 {
+						continue
+					}
+					if _, reach := r.F.Reach(Query{From: start, Inclusive: true, Target: func(t Pt) bool { return t == q }}); !reach {
+						continue
+					}
+					res := ast.Unparen(ret.Results[0])
+					if cl.acquire {
+						if !constSuccess(res) && !sentinel(res) {
+							msg = "after the permit was acquired the function returns " + exprStr(res) + " (line " + itoa(p.Fset.Position(ret.Pos()).Line) + "), not the constant success: when that value says 'failed' (the context expired in the same instant) the permit is held but the caller was told it got none – it is never released and the limit shrinks by one for good"
+						}
+					} else if constSuccess(res) {
+						msg = "a give-up case (context done / timer) can end in the constant success at line " + itoa(p.Fset.Position(ret.Pos()).Line) + ": the caller proceeds without holding a permit and releases one it never took"
+					}
+				}
+				c.Hold("R9", key, cl.cc.Pos(), msg == "", msg)
+			}
+			return true
+		})
+	}
+	if n < 4 {
+		c.Fail("R9", "selects", token.NoPos, "undecided: fewer than two acquire/give-up selects found in the limiters package")
+	}
 }
